@@ -10,6 +10,30 @@ use slotted_egraphs::*;
 
 pub struct Inv;
 
+/// the smallest-term analysis plus a `modify` hook that only reads: the class it is handed must be one the public
+/// accessors answer for (a hook written against `enodes`/`slots`, as the constant-propagation example of the crate is)
+#[derive(Default)]
+pub struct MinSizeReading;
+
+impl Analysis<Sym> for MinSizeReading {
+    type Data = u64;
+    fn make(eg: &EGraph<Sym, Self>, enode: &Sym) -> u64 {
+        let mut s: u64 = 1;
+        for x in enode.applied_id_occurrences() {
+            s = s.saturating_add(*eg.analysis_data(x.id));
+        }
+        s
+    }
+    fn merge(l: u64, r: u64) -> u64 {
+        l.min(r)
+    }
+    fn modify(eg: &mut EGraph<Sym, Self>, i: Id) {
+        let n = eg.enodes(i).len();
+        let k = eg.slots(i).len();
+        assert!(n > 0, "modify was handed a class without e-nodes ({k} slots)");
+    }
+}
+
 /// (language, depth, number of sequences)
 fn lang_segments(tier: Tier) -> Vec<(&'static str, u32, u64)> {
     let mut v = Vec::new();
@@ -311,7 +335,7 @@ impl Prop for Inv {
         let analysis_too = segname.starts_with("SHARE") || segname.starts_with("SAME") || segname.starts_with("SELFX") || segname.starts_with("CASC") || segname.starts_with("TERN") || segname.starts_with("MICRO") || segname == "CORE^2" || segname.starts_with("SELF^1") || (tier == Tier::Thorough && (segname == "CORE^3" || segname.starts_with("T3")));
         for (hist, with_analysis) in variants(&ops, flips).into_iter().flat_map(|h| if analysis_too { vec![(h.clone(), false), (h, true)] } else { vec![(h, false)] }) {
             let h2 = hist.clone();
-            let r = fresh_thread(move || if with_analysis { run_one::<crate::props::equiv::MinSize>(&h2) } else { run_one::<()>(&h2) });
+            let r = fresh_thread(move || if with_analysis { run_one::<MinSizeReading>(&h2) } else { run_one::<()>(&h2) });
             out.traces += 1;
             out.transitions += hist.len() as u64;
             let opsv = ops_strings(&hist);
